@@ -199,3 +199,14 @@ func returnsFrom(f *eng.Fn, pt eng.Point, cut eng.Cut) []*ast.ReturnStmt {
 	}
 	return out
 }
+
+// domAny records one obligation: site must be dominated by the disjunction of
+// the patterns.
+func (c *cx) domAny(id string, f *eng.Fn, n ast.Node, construct string, pats []string, assume ...string) bool {
+	pt, ok := c.site(id, f, n, construct)
+	if !ok {
+		return false
+	}
+	okd, why := f.Graph().DominatedAny(pt, pats, assume...)
+	return c.r.Check(id, f, construct, "G: every path to the site crosses an edge establishing one of {"+strings.Join(pats, " | ")+"}", n.Pos(), okd, why)
+}
